@@ -2,6 +2,7 @@ package c18
 
 import (
 	"bytes"
+	"errors"
 	"fmt"
 	"io"
 	"strings"
@@ -288,7 +289,15 @@ type rdCfg struct {
 	Ext       bool `json:"recv_extension"`
 	OnInterm  bool `json:"on_intermediate"`
 	SkipCheck bool `json:"skip_header_check"`
+	// OnContinuation callback: records every continuation frame; fails (after
+	// reading CbRead payload bytes, -1 = all) on the continuation frame whose
+	// payload starts at absolute stream offset FailPos (-1: never fails).
+	OnCont  bool `json:"on_continuation"`
+	FailPos int  `json:"on_continuation_fails_at_offset"`
+	CbRead  int  `json:"on_continuation_reads"`
 }
+
+var errCont = errors.New("harness: OnContinuation rejects this fragment")
 
 // rdUnit is everything observable while one top-level unit (a message or a
 // control frame outside a message) is consumed.
@@ -302,6 +311,9 @@ type rdUnit struct {
 	End        string
 	Interm     []string
 	Stop       bool
+	// CbErr: OnContinuation failed during a Read and the application then
+	// called Discard(); the next unit starts at the true end of this message.
+	CbErr bool
 }
 
 func (u rdUnit) String() string {
@@ -315,7 +327,7 @@ type rdInst struct {
 	log *[]string
 }
 
-func newRd(cfg rdCfg, data []byte) rdInst {
+func newRd(cfg rdCfg, data []byte, base int) rdInst {
 	src := tx.NewSrc(data, nil)
 	st := ws.StateServerSide
 	if cfg.Client {
@@ -334,6 +346,23 @@ func newRd(cfg rdCfg, data []byte) rdInst {
 			p, err := io.ReadAll(rd)
 			*log = append(*log, fmt.Sprintf("op=%#x len=%d payload=%x err=%v", byte(h.OpCode), h.Length, p, err))
 			return nil
+		}
+	}
+	if cfg.OnCont {
+		log := in.log
+		r.OnContinuation = func(h ws.Header, rd io.Reader) error {
+			at := base + src.Pos
+			*log = append(*log, fmt.Sprintf("cont fin=%v len=%d at=%d", h.Fin, h.Length, at))
+			if at != cfg.FailPos {
+				return nil
+			}
+			switch {
+			case cfg.CbRead < 0:
+				io.Copy(io.Discard, rd)
+			case cfg.CbRead > 0:
+				io.ReadFull(rd, make([]byte, cfg.CbRead))
+			}
+			return errCont
 		}
 	}
 	in.r = r
@@ -379,6 +408,14 @@ func (in rdInst) consume(m rdMode) rdUnit {
 			p := make([]byte, m.Buf)
 			n, err := in.r.Read(p)
 			u.Data = append(u.Data, p[:n]...)
+			if err == errCont {
+				// The application gives the message up. What Discard returns for
+				// it is not compared; what matters is the next message.
+				in.r.Discard()
+				u.Reads = append(u.Reads, fmt.Sprintf("%d/callback error", n))
+				u.End, u.CbErr = "callback error, Discard()", true
+				return true
+			}
 			u.Reads = append(u.Reads, fmt.Sprintf("%d/%s", n, errName(err)))
 			if err != nil {
 				u.End = errName(err)
@@ -392,7 +429,7 @@ func (in rdInst) consume(m rdMode) rdUnit {
 		if !read(1 << 20) {
 			u.End, u.Stop = "runaway", true
 		}
-		if u.End != "EOF" {
+		if u.End != "EOF" && !u.CbErr {
 			u.Stop = true
 		}
 	case "partial-discard":
@@ -400,13 +437,18 @@ func (in rdInst) consume(m rdMode) rdUnit {
 			err := in.r.Discard()
 			u.End = "discard:" + errName(err)
 			u.Stop = err != nil
-		} else if u.End != "EOF" {
+		} else if u.End != "EOF" && !u.CbErr {
 			u.Stop = true
 		}
 	case "discard":
 		err := in.r.Discard()
 		u.End = "discard:" + errName(err)
 		u.Stop = err != nil
+	}
+	if u.Stop && strings.Contains(u.End, errCont.Error()) {
+		// The callback failed inside Discard() itself: Discard gives up in the
+		// middle of the message and the stream position is lost. Left open.
+		hx.Class("open/oncontinuation-error-inside-discard")
 	}
 	u.Interm = append([]string(nil), *in.log...)
 	return u
@@ -424,6 +466,8 @@ func TestReaderConsecutiveMessages(t *testing.T) {
 			OnInterm:  rapid.Bool().Draw(t, "onintermediate"),
 			SkipCheck: rapid.IntRange(0, 4).Draw(t, "skipcheck") == 0,
 		}
+		cfg.FailPos = -1
+		cfg.OnCont = rapid.Bool().Draw(t, "oncontinuation")
 		frames := gen.Conversation(t, "conv", gen.ConvOpts{Masked: !cfg.Client, MaxMsgs: 4, MaxPayload: 60})
 		if cfg.Ext {
 			// mark some messages "compressed": RSV1 on their first frame
@@ -435,6 +479,27 @@ func TestReaderConsecutiveMessages(t *testing.T) {
 		}
 		wire := ref.EncodeAll(frames)
 		events := ref.Events(frames)
+		// stream offsets: end of every frame, start of the payload of every continuation frame
+		var frameEnd, contPayloadAt []int
+		off := 0
+		for _, f := range frames {
+			e := f.Encode()
+			if f.H.Op == ref.OpCont {
+				contPayloadAt = append(contPayloadAt, off+len(e)-len(f.Payload))
+			}
+			off += len(e)
+			frameEnd = append(frameEnd, off)
+		}
+		if cfg.OnCont && len(contPayloadAt) > 0 && rapid.IntRange(0, 3).Draw(t, "oncont.fail?") > 0 {
+			cfg.FailPos = rapid.SampledFrom(contPayloadAt).Draw(t, "oncont.failat")
+			cfg.CbRead = rapid.SampledFrom([]int{0, 0, 1, -1}).Draw(t, "oncont.reads")
+		}
+		var unitEnd []int // true end offset of every top-level unit
+		for _, e := range events {
+			if e.Kind == "msg" || !e.Intermediate {
+				unitEnd = append(unitEnd, frameEnd[e.At])
+			}
+		}
 		// top-level units: complete messages and control frames outside messages
 		nunits := 0
 		for _, e := range events {
@@ -453,7 +518,7 @@ func TestReaderConsecutiveMessages(t *testing.T) {
 		}
 		hx.Eval()
 
-		a := newRd(cfg, wire)
+		a := newRd(cfg, wire, 0)
 		var units []rdUnit
 		pos := []int{0}
 		for i := 0; i < nunits; i++ {
@@ -462,7 +527,13 @@ func TestReaderConsecutiveMessages(t *testing.T) {
 			if u.Stop {
 				break
 			}
-			pos = append(pos, a.src.Pos)
+			if u.CbErr {
+				// the next message starts where this one ends on the wire
+				pos = append(pos, unitEnd[i])
+				hx.Class("reader/oncontinuation-error-then-discard")
+			} else {
+				pos = append(pos, a.src.Pos)
+			}
 		}
 		desc := func() map[string]interface{} {
 			var us []string
@@ -475,7 +546,7 @@ func TestReaderConsecutiveMessages(t *testing.T) {
 		// when it reads whole messages; anything else is compared, not predicted.
 		boundaries := 0
 		for k := 1; k < len(pos) && k < nunits; k++ {
-			b := newRd(cfg, wire[pos[k]:])
+			b := newRd(cfg, wire[pos[k]:], pos[k])
 			boundaries++
 			for j := k; j < len(units); j++ {
 				ub := b.consume(modes[j])
